@@ -38,7 +38,10 @@ pub fn dispatch(ctx: &mut Ctx) -> bool {
         "C06" => c06::run(ctx),
         "C07" => c07::run(ctx),
         "C13" => c13::run(ctx),
-        "C14" => c14::run(ctx),
+        "C14" => {
+            c14::run(ctx);
+            c14::end_to_end(ctx);
+        }
         "C15" => c15::run(ctx),
         "C16" => c16::run(ctx),
         "C17" => c17::run(ctx),
